@@ -98,7 +98,7 @@ def supplementLines (c : Colors) (w : Int) (base : Nat) : List LinkV → Nat →
   | [], _ => []
   | a :: as, i =>
     (match a.altText with
-      | .error m => problem c m
+      | .error m => Style.linkBlock c (Ansi.wrap (problem c m) (w - 2)) (base + i + 1)
       | .ok alt => Style.linkBlock c (Ansi.wrap alt (w - 2)) (base + i + 1)) :: supplementLines c w base as (i + 1)
 
 /-- `Post.supplement(width)`. -/
